@@ -73,6 +73,57 @@ def confirm(pid, k):
         shutil.rmtree(tree, ignore_errors=True)
 
 
+def evaluate_scratch(name, checks, seeds=("1",)):
+    """Same as evaluate() but on a scratch worktree given to the checks through VERIF_REPO (safe to run while
+    other jobs read /repo)."""
+    d = os.path.join(SEEDED, name)
+    patch = os.path.join(d, "patch.diff")
+    wt = "seedeval-%s" % name
+    tree = "/tmp/" + wt
+    sh("git -C /repo worktree remove --force %s" % tree)
+    shutil.rmtree(tree, ignore_errors=True)
+    rc, o = sh("git -C /repo worktree add -q --detach %s HEAD && rsync -a --exclude .git --exclude '*.o' --exclude '*.lo' "
+               "--exclude '.libs' --exclude 'tests/' /repo/ %s/" % (tree, tree))
+    res = {"name": name, "runs": []}
+    try:
+        rc, o = sh("git apply %s" % patch, cwd=tree)
+        if rc != 0:
+            rc, o = sh("git apply --3way %s" % patch, cwd=tree)
+            if rc != 0:
+                raise SystemExit("patch does not apply: " + o[-400:])
+        for c in checks:
+            for s in seeds:
+                env = dict(os.environ, VERIF_SEED=s, VERIF_REPO=tree, VERIF_EVIDENCE_DIR=os.path.join(VERIF, "build", "seedlogs", "ev-" + name))
+                t0 = time.time()
+                rc, out = sh("./check %s --tier quick" % c, cwd=VERIF, timeout=3600, env=env)
+                viol = [l for l in out.split("\n") if l.startswith("VIOLATION")]
+                first = ""
+                if viol:
+                    i = out.find(viol[0])
+                    first = out[i:i + 900]
+                res["runs"].append({"check": c, "seed": s, "exit": rc, "violations": len(viol), "seconds": int(time.time() - t0),
+                                    "first": first, "summary": [l for l in out.split("\n") if l.startswith(c + " ")][-1:],
+                                    "mode": "scratch worktree via VERIF_REPO"})
+                print("%s %s seed=%s exit=%d violations=%d %ds" % (name, c, s, rc, len(viol), time.time() - t0), flush=True)
+    finally:
+        sh("git -C /repo worktree remove --force %s" % tree)
+        shutil.rmtree(tree, ignore_errors=True)
+    return _store(d, res)
+
+
+def _store(d, res):
+    prev = {}
+    rp = os.path.join(d, "result.json")
+    if os.path.exists(rp):
+        prev = json.load(open(rp))
+    prev.setdefault("runs", [])
+    prev["runs"] += res["runs"]
+    prev["caught_by"] = sorted(set(r["check"] for r in prev["runs"] if r["exit"] == 1 and r["violations"]))
+    prev["missed_by"] = sorted(set(r["check"] for r in prev["runs"] if r["exit"] == 0) - set(prev["caught_by"]))
+    json.dump(prev, open(rp, "w"), indent=1)
+    return prev
+
+
 def evaluate(name, checks, seeds=("1",)):
     d = os.path.join(SEEDED, name)
     patch = os.path.join(d, "patch.diff")
@@ -103,21 +154,18 @@ def evaluate(name, checks, seeds=("1",)):
         sh("git checkout -- evidence", cwd=VERIF)
         for c in checks:
             shutil.rmtree(os.path.join(VERIF, "replays", c, "found"), ignore_errors=True)
-    prev = {}
-    rp = os.path.join(d, "result.json")
-    if os.path.exists(rp):
-        prev = json.load(open(rp))
-    prev.setdefault("runs", [])
-    prev["runs"] += res["runs"]
-    prev["caught_by"] = sorted(set(r["check"] for r in prev["runs"] if r["exit"] == 1 and r["violations"]))
-    json.dump(prev, open(rp, "w"), indent=1)
-    return prev
+    return _store(d, res)
 
 
 if __name__ == "__main__":
     if sys.argv[1] == "confirm":
         r = confirm(sys.argv[2], sys.argv[3])
         print(json.dumps(r, indent=1)[:3000])
+    elif sys.argv[1] == "evaluate-scratch":
+        name = sys.argv[2]
+        checks = sys.argv[3:] or [name.split("-")[0]]
+        r = evaluate_scratch(name, checks)
+        print(json.dumps({"caught_by": r["caught_by"], "missed_by": r["missed_by"]}))
     elif sys.argv[1] == "evaluate":
         name = sys.argv[2]
         checks = sys.argv[3:] or [name.split("-")[0]]
